@@ -121,3 +121,41 @@ Definition enc_pmap (r : res pmap) : list N :=
   | Crash _ => [3%N]
   | OutOfFuel => [4%N]
   end.
+
+(* ---- the property's clauses as a decidable check on a prefix table and the declarations written
+   (used by the check as oracle on the implementation's own table and output) ---------------------- *)
+Definition XML_ : str := [120; 109; 108]%N.
+Fixpoint nodup_str (l : list str) : bool :=
+  match l with [] => true | x :: r => (negb (py_in_str x r) && nodup_str r)%bool end.
+Definition c13_holds_b (caller : caller_map) (nss : list str) (pm : pmap) (decls : list (str * str)) : bool :=
+  (* every namespace of the tree bound, to one prefix; different namespaces, different prefixes *)
+  (forallb (fun n => dict_has n pm) nss && nodup_str (dict_keys pm) && nodup_str (dict_values pm)
+  (* no namespace: no prefix, and no default namespace declared *)
+  && (negb (py_in_str [] nss)
+      || (match dict_get [] pm with Some [] => true | _ => false end && negb (dict_has XMLNS_ decls)))
+  (* the caller's non-empty prefixes *)
+  && forallb (fun kv => match fst kv with
+                        | Some (c :: p) => (null (snd kv) || negb (py_in_str (snd kv) nss)
+                                            || match dict_get (snd kv) pm with
+                                               | Some q => str_eqb q ((c :: p) ++ [COLON]) | None => false end)%bool
+                        | _ => true end) caller
+  (* xml: never declared, never remapped *)
+  && negb (dict_has (XMLNS_ ++ [COLON] ++ XML_) decls) && negb (dict_has (XMLNS_ ++ [COLON] ++ XMLNS_) decls)
+  && negb (py_in_str xml_ns (dict_values decls))
+  && forallb (fun kv => Bool.eqb (str_eqb (snd kv) (XML_ ++ [COLON])) (str_eqb (fst kv) xml_ns)) pm
+  (* what is declared is the table: every declaration binds a table entry and every non-empty,
+     non-xml namespace of the table is declared *)
+  && forallb (fun kv => (null (fst kv) || str_eqb (fst kv) xml_ns
+                         || match snd kv with
+                            | [] => match dict_get XMLNS_ decls with Some n => str_eqb n (fst kv) | None => false end
+                            | p => match dict_get (XMLNS_ ++ [COLON] ++ removelast p) decls with
+                                   | Some n => str_eqb n (fst kv) | None => false end
+                            end)%bool) pm)%bool.
+
+Definition enc_pairs (l : list (str * str)) : list N :=
+  N.of_nat (length l) :: flat_map (fun kv => (N.of_nat (length (fst kv)) :: fst kv)
+                                              ++ (N.of_nat (length (snd kv)) :: snd kv)) l.
+Definition enc_bfs (l : list node_nss) : list N :=
+  N.of_nat (length l) :: flat_map (fun nn => (N.of_nat (length (fst nn)) :: fst nn)
+     ++ N.of_nat (length (snd nn)) :: flat_map (fun s => N.of_nat (length s) :: s) (snd nn)) l.
+Definition res_pmap_or_empty (r : res pmap) : pmap := match r with Ok pm => pm | _ => [] end.
